@@ -36,8 +36,11 @@ def gen_input(r, tier):
     configurations see exactly the same input).  Positions keep a distance of 1e-3 leaf widths from the faces of the
     *box*; faces of interior cells, cell centres and cell axes are hit exactly when the box is the unit box (dyadic)."""
     f = ftree.f32
-    kind = r.choice(["unit", "unit", "shifted", "scaled"])
-    if kind == "unit":
+    kind = r.choice(["unit", "unit", "shifted", "scaled", "generic"])
+    if kind == "generic":
+        # non-dyadic centre and width: the tree's cell of a point and the kernels' leaf interval are computed with different roundings
+        center, width = [f(r.uniform(-3.0, 3.0)) for _ in range(3)], f(r.uniform(0.3, 5.0))
+    elif kind == "unit":
         center, width = [0.5, 0.5, 0.5], 1.0
     elif kind == "shifted":
         center, width = [f(r.choice([-2.0, -0.5, 0.25, 1.5, 3.0])) for _ in range(3)], 1.0
@@ -49,6 +52,8 @@ def gen_input(r, tier):
     ncell = 1 << (H - 1)
     lw = width / ncell
     pk = r.choice(["uniform", "clustered", "faces", "centres", "axes"])
+    if kind == "generic" and pk in ("centres", "axes"):
+        pk = "faces"          # (nearly) on the axis of a leaf is the neighbourhood of the known finding F-10; exact only in dyadic boxes
     pts = []
     cl = [[r.random() for _ in range(3)] for _ in range(3)]
     lo, hi = 1e-3 / ncell, 1 - 1e-3 / ncell
